@@ -4,7 +4,7 @@ CONSTANTS
   Catching <- Both
   Verbs <- Verbs1
   MCLines <- LinesEight
-  Pres <- PresAll
+  Pres <- PresTwo
   MaxListeners = 1
   ListenerKinds <- KindsFew
   ListenerValues <- ValuesL
